@@ -43,7 +43,7 @@ Qed.
 
 Lemma execute_body_handover chunks t ch a s' o cc :
   a_kind a = KFile true -> a_steps a = plain_steps chunks ->
-  t_complete t = true -> t_wrote_header t = false ->
+  t_complete t = true -> t_wrote_header t = false -> has_body t = true ->
   (0 < file_size t (file_content (plain_steps chunks)))%Z ->
   execute_body cap lower c r None (t, ch) a = (s', o, cc) -> o = Ok tt ->
   exists tp head, build_response_header cap lower c r (reconciled t (file_content (plain_steps chunks))) = (tp, Ok head)
@@ -51,14 +51,14 @@ Lemma execute_body_handover chunks t ch a s' o cc :
     /\ chan_wire (snd s') = chan_wire ch ++ head
                             ++ firstn (Z.to_nat (file_size t (file_content (plain_steps chunks)))) (file_content (plain_steps chunks)).
 Proof.
-  intros Ek Es Hc Hw Hsize. unfold execute_body. rewrite Ek, Es. cbn beta iota zeta.
+  intros Ek Es Hc Hw Hhb Hsize. unfold execute_body. rewrite Ek, Es. cbn beta iota zeta.
   set (content := file_content (plain_steps chunks)) in *.
   change (match t_clen t with
           | Some n => Z.min (Z.of_nat (length content)) n
           | None => Z.of_nat (length content)
           end) with (file_size t content).
   set (size := file_size t content) in *.
-  assert (E0 : (size =? 0)%Z = false) by (apply Z.eqb_neq; lia). rewrite E0, Hw.
+  assert (E0 : (size =? 0)%Z = false) by (apply Z.eqb_neq; lia). rewrite E0, Hw, Hhb. cbn [negb].
   match goal with |- context [task_write cap lower c r None (?tt, ch) []] =>
     change tt with (reconciled t content) end.
   destruct (reconciled_fresh t content Hc Hw) as [Hc' Hw'].
@@ -83,6 +83,8 @@ Definition fapp (status : str) (hs : list (pyobj * pyobj)) (chunks : list bytes)
 
 Theorem fapp_wire status hs chunks hc :
   r_error r = None ->
+  (* the status has a body: after 1xx/204/304 nothing is handed over (fix d117733) *)
+  startswith status (lit "1") || startswith status (lit "204") || startswith status (lit "304") = false ->
   (forall t1, start_response lower (new_task (r_version r) false) (PStr status) hs None = (t1, Ok tt) ->
               (0 < file_size t1 (file_content (plain_steps chunks)))%Z) ->
   let res := channel_service cap lower c r (fapp status hs chunks hc) None in
@@ -96,7 +98,7 @@ Theorem fapp_wire status hs chunks hc :
     /\ o_close res = t_cof tp /\ o_next res = negb (t_cof tp)
     /\ o_handover res = true /\ o_closes res = 0%nat.
 Proof.
-  intros He Hsz. cbn zeta. unfold channel_service. rewrite He. cbn [connected].
+  intros He Hst Hsz. cbn zeta. unfold channel_service. rewrite He. cbn [connected].
   set (t0 := new_task (r_version r) false).
   match goal with |- context [ladder cap lower c r None ?x0 ?raw0] =>
     destruct (ladder_fields cap lower c r None x0 raw0) as (_ & _ & _ & Eraw & _) end.
@@ -110,15 +112,16 @@ Proof.
   rewrite run_actions_single. cbn [run_action fst snd].
   destruct (start_response lower t0 (PStr status) hs None) as [t1 [[]|e1]] eqn:Esr; cbn [fst snd];
     [|cbn; intro X; discriminate X].
-  destruct (start_response_ok lower _ _ _ _ _ Esr) as (_ & _ & _ & Hc1 & Hw1 & _).
-  cbn [t_wrote_header new_task t0] in Hw1.
+  destruct (start_response_ok lower _ _ _ _ _ Esr) as (_ & Hst1 & _ & Hc1 & Hw1 & _).
+  cbn [t_wrote_header new_task t0] in Hw1. cbn [str_of] in Hst1.
+  assert (Hhb1 : has_body t1 = true) by (unfold has_body; rewrite Hst1, Hst; reflexivity).
   specialize (Hsz t1 Esr).
   destruct (execute_body cap lower c r None (t1, mkChan [] 0) (fapp status hs chunks hc)) as [[s2 o2] cc] eqn:Ex.
   destruct o2 as [[]|e2].
   2: { destruct (cc && a_has_close (fapp status hs chunks hc)); [destruct (a_close_exn (fapp status hs chunks hc))|];
        cbn; intro X; discriminate X. }
   destruct (execute_body_handover chunks t1 (mkChan [] 0) (fapp status hs chunks hc) s2 (Ok tt) cc
-              eq_refl eq_refl Hc1 Hw1 Hsz Ex eq_refl) as (tp & head & Eb & Ef & Ecc & W2).
+              eq_refl eq_refl Hc1 Hw1 Hhb1 Hsz Ex eq_refl) as (tp & head & Eb & Ef & Ecc & W2).
   subst cc. cbn [andb negb x_out x_st x_closes x_handover x_iter].
   destruct s2 as [t2 ch2]. cbn [fst snd] in *. subst t2.
   destruct (finish_after_head cap lower c r (set_wrote true tp) ch2 eq_refl) as (ch3 & Ef3 & W3). rewrite Ef3.
